@@ -98,7 +98,7 @@ impl Fields {
 
     pub(super) fn alternate_bases(&self) -> AlternateBases<'_> {
         let src = &self.site_buf[self.bounds.alternate_bases_range()];
-        let len = self.allele_count() - 1;
+        let len = self.allele_count().saturating_sub(1);
         AlternateBases::new(src, len)
     }
 
@@ -139,7 +139,9 @@ fn index(buf: &[u8], bounds: &mut Bounds) -> io::Result<()> {
         let start = offset + (prev_buf_len - buf.len());
         let end = start + len;
 
-        *buf = &buf[len..];
+        *buf = buf
+            .get(len..)
+            .ok_or_else(|| io::Error::from(io::ErrorKind::UnexpectedEof))?;
 
         Ok((start, end))
     }
@@ -158,7 +160,9 @@ fn index(buf: &[u8], bounds: &mut Bounds) -> io::Result<()> {
         let start = offset + (prev_buf_len - buf.len());
         let end = start + len;
 
-        *buf = &buf[len..];
+        *buf = buf
+            .get(len..)
+            .ok_or_else(|| io::Error::from(io::ErrorKind::UnexpectedEof))?;
 
         Ok(end)
     }
@@ -172,9 +176,13 @@ fn index(buf: &[u8], bounds: &mut Bounds) -> io::Result<()> {
     let allele_count = usize::from(u16::from_le_bytes(src.try_into().unwrap()));
 
     let mut i = IDS_START_INDEX;
+    let site_buf = buf;
     let mut buf = &buf[i..];
 
     let (start, end) = consume_string(&mut buf, i)?;
+    // `Ids::iter` yields `&str`.
+    std::str::from_utf8(&site_buf[start..end])
+        .map_err(|e| io::Error::new(io::ErrorKind::InvalidData, e))?;
     bounds.ids_range = start..end;
     i = end;
 
@@ -182,7 +190,12 @@ fn index(buf: &[u8], bounds: &mut Bounds) -> io::Result<()> {
     bounds.reference_bases_range = start..end;
     i = end;
 
-    for _ in 0..(allele_count - 1) {
+    // The allele count includes the reference bases.
+    let alternate_bases_count = allele_count
+        .checked_sub(1)
+        .ok_or_else(|| io::Error::new(io::ErrorKind::InvalidData, "invalid allele count"))?;
+
+    for _ in 0..alternate_bases_count {
         let (_, end) = consume_string(&mut buf, i)?;
         i = end;
     }
